@@ -48,6 +48,10 @@ ASSUMPTIONS = [
 ]
 
 
+class AsymmetricRelease(AnalysisError):
+    pass
+
+
 def _roles(prog, eff):
     mod = prog.module(MOD)
     acquire = release = cache = restore = None
@@ -79,6 +83,18 @@ def _roles(prog, eff):
                 ss = eff.summary(defs[-1])
                 if any(e.kind == "attr:index" and e.origin[0] == "self" for e in ss["effects"]):
                     restore = defs[-1]
+    if acquire and not release:
+        # an un-naming that REPLACES the index object (obj.index = obj.index.set_names(...)) instead of renaming in place: the
+        # acquire renamed the shared Index object in place, so every other holder of that object keeps the placeholder name
+        for key, fi in prog.functions.items():
+            if fi.module is not mod or fi.cls is not None or fi.parent is not None or fi is acquire:
+                continue
+            for st in walk_function(fi.node):
+                if isinstance(st, ast.Assign) and isinstance(st.targets[0], ast.Attribute) and st.targets[0].attr == "index" and \
+                        any(isinstance(c_.func, ast.Attribute) and c_.func.attr in ("set_names", "rename") for c_ in calls_in(st.value)):
+                    e = AsymmetricRelease("release replaces the index object")
+                    e.func, e.stmt, e.acquire = fi, st, acquire
+                    raise e
     if not (acquire and release and cache and restore):
         raise AnalysisError("broadcaster roles not found: acquire=%s release=%s cache=%s restore=%s" % (
             acquire and acquire.key, release and release.key, cache and cache.key, restore and restore.key))
@@ -94,7 +110,15 @@ def _list_elts(e):
 def run(ctx):
     prog = ctx.prog
     eff = Effects(prog)
-    acquire, release, cache, restore = _roles(prog, eff)
+    try:
+        acquire, release, cache, restore = _roles(prog, eff)
+    except AsymmetricRelease as e:
+        ctx.rule("R-C13-1", floor=1, what="acquire/release pairing on all normal paths, release covers acquired objects, LIFO order")
+        ctx.violated(e.func, e.stmt, "%s undoes the placeholder names by giving the operand a NEW index object (%s), while %s put "
+                     "them onto the existing one in place: every other object that shares the operand's Index (a float copy, a "
+                     "Series built on df.index) keeps the placeholder as level name - the caller's data are altered" %
+                     (e.func.name, norm_text(e.stmt)[:60], e.acquire.name), text="release replaces the index object")
+        return
     mod = prog.module(MOD)
 
     # ------------------------------------------------------------------ R-C13-1
